@@ -74,10 +74,10 @@ func (o *WorkerGroupConf) Validate() error {
 // the WorkerGroupConf, and then returning true if processing should
 // continue and false otherwise.
 //
-// Neither io.EOF nor EerrIteratorSkip errors are ever observed.
-// All panic errors are observed. Context cancellation errors are
-// observed only when configured. as well as context cancellation
-// errors when configured.
+// Neither io.EOF nor EerrIteratorSkip errors are ever observed, nor
+// are the errors listed in ExcludedErrors. All panic errors are
+// observed. Context cancellation errors are observed only when
+// configured.
 func (o WorkerGroupConf) CanContinueOnError(err error) bool {
 	if err == nil {
 		return true
@@ -103,7 +103,9 @@ func (o WorkerGroupConf) CanContinueOnError(err error) bool {
 
 		return false
 	default:
-		o.ErrorHandler(err)
+		if !ers.Is(err, o.ExcludedErrors...) {
+			o.ErrorHandler(err)
+		}
 		return o.ContinueOnError
 	}
 }
